@@ -139,6 +139,13 @@ def add_study(servicer, state=SA, name=S, display='s'):
   servicer.datastore.create_study(study_pb2.Study(name=name, display_name=display, study_spec=spec(), state=state))
 
 
+def _kv_value(kv):
+  """String value, or a printable form of a packed proto value."""
+  if kv.HasField('proto'):
+    return 'proto:%s:%s' % (kv.proto.type_url, kv.proto.value.hex())
+  return kv.value
+
+
 def abstract_trial(t):
   return {
       'id': int(t.id), 'state': t.state, 'client': t.client_id,
@@ -146,7 +153,7 @@ def abstract_trial(t):
       'final': [(m.metric_id, m.value) for m in t.final_measurement.metrics] if t.HasField('final_measurement') else None,
       'reason': t.infeasible_reason,
       'params': [(p.parameter_id, p.value.number_value) for p in t.parameters],
-      'md': sorted((kv.ns, kv.key, kv.value) for kv in t.metadata),
+      'md': sorted((kv.ns, kv.key, _kv_value(kv)) for kv in t.metadata),
   }
 
 
@@ -159,7 +166,7 @@ def abstract(servicer, study=S):
     return None
   trials = {int(t.id): abstract_trial(t) for t in ds.list_trials(study)}
   return {'state': st.state, 'trials': trials,
-          'md': sorted((kv.ns, kv.key, kv.value) for kv in st.study_spec.metadata)}
+          'md': sorted((kv.ns, kv.key, _kv_value(kv)) for kv in st.study_spec.metadata)}
 
 
 def snapshot(servicer, study=S):
